@@ -11,6 +11,7 @@ import (
 	"encoding/json"
 	"fmt"
 	"os"
+	"runtime/debug"
 	"sort"
 	"strings"
 	"time"
@@ -41,7 +42,7 @@ func mkCase(f family, seq []int) Case {
 	return c
 }
 
-var kindRank = map[string]int{"panic": 0, "nondeterministic": 1, "prefix-fails-only": 2, "rechunk": 3}
+var kindRank = map[string]int{"panic": 0, "nondeterministic": 1, "prefix-fails-only": 2, "rechunk": 3, "entry-points-differ": 8}
 
 // classify names the class of a failing case: a function of the failing feature, not of the sequence.
 func classify(f family, seq []int, fails []failure) (string, failure) {
@@ -124,12 +125,21 @@ func main() {
 	c.Res.Explanation = "Exhaustive enumeration of all chunk sequences per family: " + strings.Join(desc, ", ") +
 		". Each sequence is concatenated through every entry point of its chunk type (messages: schema.ConcatMessages, schema.ConcatMessageStream over a pipe, " +
 		"internal.ConcatItems, compiled graph stream-lambda -> invoke-lambda; other types: the last two). Oracle: no panic; 3 repetitions identical under a canonical rendering; " +
-		"for every proper split i, concat(concat(c[:i]) ++ c[i:]) equals concat(c) or both fail, and a failing prefix implies a failing whole; " +
+		"for every proper split i, concat(concat(c[:i]) ++ c[i:]) equals concat(c) or both fail, and a failing prefix implies a failing whole " +
+		"(the graph entry is judged by no-panic, repetition, the model and agreement with internal.ConcatItems on the same chunks instead of re-chunking through the graph again); " +
 		"independent model: text in arrival order, tool-call fragments merged by index in ascending order, arguments in arrival order."
 
 	byName := map[string]family{}
 	for _, f := range fams {
 		byName[f.Name()] = f
+		seen := map[string]bool{}
+		for i := 0; i < f.Size(); i++ {
+			if seen[f.Label(i)] {
+				fmt.Fprintf(os.Stderr, "c14: duplicate symbol %q in family %s\n", f.Label(i), f.Name())
+				os.Exit(2)
+			}
+			seen[f.Label(i)] = true
+		}
 	}
 
 	if v := c.LoadReplay(); v != nil {
@@ -160,6 +170,8 @@ func main() {
 	}
 
 	perSig := map[string]int{}
+	jr := &journal{}
+	debug.SetGCPercent(400) // allocation-heavy, tiny live heap
 	sampled := map[string]bool{}
 	st := &stats{}
 	stop := false
@@ -169,16 +181,20 @@ func main() {
 				continue
 			}
 			product(f.Size(), n, func(seq []int) bool {
-				name := caseName(f, seq)
+				name := ""
+				if c.Only != "" {
+					name = caseName(f, seq)
+				}
 				if !c.Mine(name) {
 					return true
 				}
+				name = caseName(f, seq)
 				if c.TimeUp() {
 					stop = true
 					return false
 				}
 				cs := mkCase(f, seq)
-				c.Journal(name, cs)
+				jr.record(c, name, cs)
 				var fails []failure
 				before := st.calls
 				c.Guard(name, cs, 120*time.Second, func() error { fails = f.Eval(seq, 3, st); return nil })
@@ -193,7 +209,11 @@ func main() {
 					sig, p := classify(f, seq, fails)
 					c.Outcome("violation:" + sig)
 					c.Count("violating_cases/"+sig, 1)
-					if perSig[sig] < 2 { // cases come simplest first: keep the two smallest of each class
+					limit := 2 // cases come simplest first: keep the smallest of each class (the harness keeps 20 per worker)
+					if len(c.Res.Violations) >= 10 {
+						limit = 1
+					}
+					if perSig[sig] < limit {
 						perSig[sig]++
 						c.Violate(harness.Violation{Scenario: name, Signature: sig, Case: cs, Msg: p.Detail})
 					}
@@ -210,4 +230,37 @@ func main() {
 		}
 	}
 	c.Finish()
+}
+
+// journal does what harness.Ctx.Journal does (it names the case that is about to run, so that the driver can
+// attribute a process crash to it) with one pwrite per case instead of create+write+close: the file stays open
+// and every record is padded with spaces to at least the length of the previous one (still one JSON value).
+type journal struct {
+	f    *os.File
+	last int
+}
+
+func (j *journal) record(c *harness.Ctx, name string, cs Case) {
+	if c.Out == "" || c.Replay != "" {
+		return
+	}
+	if j.f == nil {
+		f, err := os.OpenFile(c.Out+".journal", os.O_CREATE|os.O_WRONLY|os.O_TRUNC, 0o644)
+		if err != nil {
+			c.Journal(name, cs)
+			return
+		}
+		j.f = f
+	}
+	b, _ := json.Marshal(harness.Violation{Property: c.Property, Scenario: name, Signature: "process-crash", Case: cs,
+		Msg: "the process died while running this case (a panic escaped into a goroutine)"})
+	n := len(b)
+	for len(b) < j.last {
+		b = append(b, ' ')
+	}
+	j.last = n
+	if len(b) > n {
+		j.last = len(b)
+	}
+	j.f.WriteAt(b, 0)
 }
